@@ -197,6 +197,45 @@ def build_fallback_driver():
     return (out if rc == 0 else None), (o + e)[-1500:]
 
 
+def minimal_history(ops_path, v, tfm_bin):
+    """[preceding op lines needed to reproduce the failure of v['op']], note.  Empty list when the op fails on its own."""
+    def fails(lines_):
+        text = "\n".join(lines_) + "\n"
+        try:
+            p1 = subprocess.run([TFH, "run"], input=text, stdout=subprocess.PIPE, stderr=subprocess.DEVNULL, text=True,
+                                env=dict(os.environ, **v.get("env", {})), timeout=600)
+            p2 = subprocess.run([tfm_bin], input=text, stdout=subprocess.PIPE, stderr=subprocess.DEVNULL, text=True, timeout=600)
+        except Exception:
+            return False
+        a = p1.stdout.split("\n")
+        b = p2.stdout.split("\n")
+        k = len(lines_) - 1
+        if k >= len(a) or not a[k]:
+            return True     # the implementation did not answer (crash / abort)
+        if "ORACLE-FAIL" in a[k]:
+            return True
+        return k < len(b) and b[k] not in ("skip", "") and a[k] != "skip" and a[k].split("\t")[0] != b[k]
+    try:
+        if str(v.get("impl", "")).startswith("<crash"):
+            return [], "the implementation run crashed; the op line is the first one without an answer"
+        if fails([v["op"]]):
+            return [], "the op line fails on its own"
+        with open(ops_path) as f:
+            allops = [l.rstrip("\n") for l in f if l.strip()]
+        idx = allops.index(v["op"])
+        w = 1
+        while True:
+            lo = max(0, idx - w)
+            if fails(allops[lo:idx + 1]):
+                return allops[lo:idx], f"the op line fails only after the {idx - lo} preceding op line(s) ran in the same process (state left behind by an earlier call)"
+            if lo == 0:
+                break
+            w *= 4
+        return [], "NOT reproduced in a fresh process, even after the whole preceding stream (timing or environment dependent?)"
+    except Exception as ex:
+        return [], f"history search failed: {ex}"
+
+
 def parse_lean_errors(log):
     """[(file, line, msg)] from lake / lean output"""
     errs = []
@@ -542,7 +581,11 @@ def run_check(prop, tier, seed):
     out_lines = []
     if viol_inputs:
         v = viol_inputs[0]
-        payload = {"property": prop, "kind": v["kind"], "seed": seed, "tier": tier, "op_lines": [v["op"]],
+        # a failure may depend on what ran BEFORE the op in the same process (caches, thread-locals, lazily initialised
+        # state of the implementation): if the op alone does not reproduce it, find a window of preceding op lines that does
+        history, hist_note = minimal_history(ops_path, v, tfm_bin)
+        payload = {"property": prop, "kind": v["kind"], "seed": seed, "tier": tier, "op_lines": history + [v["op"]],
+                   "history_note": hist_note,
                    "implementation_output": v["impl"], "model_output": v["model"], "oracle": v["oracle"],
                    "env": v.get("env", {}),
                    "all_failing_ops": [x["op"] for x in viol_inputs[:50]],
@@ -639,10 +682,13 @@ def replay(path):
     p1 = subprocess.run([TFH, "run"], input=text, stdout=subprocess.PIPE, text=True, env=dict(os.environ, **payload.get("env", {})))
     p2 = subprocess.run([TFM], input=text, stdout=subprocess.PIPE, text=True)
     bad = 0
-    for op, a, b in zip(ops, p1.stdout.split("\n"), p2.stdout.split("\n")):
-        print(f"op:    {op}\nimpl:  {a}\nmodel: {b}")
-        if "ORACLE-FAIL" in a or (b != "skip" and a.split("\t")[0] != b):
-            bad += 1
+    outs = list(zip(ops, p1.stdout.split("\n"), p2.stdout.split("\n")))
+    for i, (op, a, b) in enumerate(outs):
+        print(f"op:    {op[:2000]}\nimpl:  {a[:2000]}\nmodel: {b[:2000]}")
+        # with a history, only the last line is the claimed failure
+        if i == len(outs) - 1 or len(outs) == 1:
+            if "ORACLE-FAIL" in a or not a or (b != "skip" and a != "skip" and a.split("\t")[0] != b):
+                bad += 1
     print("REPRODUCED" if bad else "not reproduced")
     return 1 if bad else 0
 
